@@ -269,3 +269,55 @@ impl<T: Config> SpectatorSession<T> {
         }
     }
 }
+
+#[cfg(feature = "verif-hooks")]
+impl<T: Config> SpectatorSession<T> {
+    /// Sizes of every internal buffer.
+    pub fn verif_buffer_sizes(&self) -> crate::verif_hooks::BufferSizes {
+        crate::verif_hooks::BufferSizes {
+            event_queue: self.event_queue.len(),
+            pending_local_inputs: 0,
+            outgoing_local_inputs: 0,
+            local_checksum_history: 0,
+            endpoints: vec![self.host.verif_sizes(false)],
+        }
+    }
+
+    /// Every field that can influence future behaviour.
+    pub fn verif_digest(&self, out: &mut Vec<u8>) {
+        use crate::verif_hooks::Digest;
+        let Self {
+            state,
+            num_players,
+            inputs,
+            host_connect_status,
+            socket: _, // owned by the harness, digested there
+            host,
+            event_queue,
+            current_frame,
+            last_recv_frame,
+            max_frames_behind,
+            catchup_speed,
+        } = self;
+        out.push(match state {
+            SessionState::Synchronizing => 0,
+            SessionState::Running => 1,
+        });
+        num_players.digest(out);
+        for frame_inputs in inputs {
+            for input in frame_inputs {
+                input.verif_digest(out);
+            }
+        }
+        host_connect_status.digest(out);
+        host.verif_digest(out);
+        event_queue.len().digest(out);
+        for e in event_queue {
+            e.verif_digest(out);
+        }
+        current_frame.digest(out);
+        last_recv_frame.digest(out);
+        max_frames_behind.digest(out);
+        catchup_speed.digest(out);
+    }
+}
